@@ -112,3 +112,18 @@ Fixpoint seek_loop (fuel : nat) (bs : bytes) (off : N) (nxt : bool) : res (N * b
     else if N.leb n (len r) then seek_loop f (skipn (N.to_nat n) r) (off + 12 + of_be l) (nxt || bytes_eqb ty ANXT)
     else Err UnexpectedEof
   end.
+
+(* `pna experimental chunk list`: offset accumulation (cli/src/command/chunk.rs:55-66): starts after
+   the 8-byte signature, advances by length + 12 per chunk *)
+Fixpoint offsets_from (off : N) (cs : list chunk) : list (chunk * N) :=
+  match cs with
+  | [] => []
+  | c :: r => (c, off) :: offsets_from (off + (len (cdata c) + 12)) r
+  end.
+Definition chunk_list (bs : bytes) : res (list (chunk * N)) :=
+  do (cs, f) <- chunks_stream bs;
+  match f with
+  | FinOk => Ok (offsets_from 8 cs)
+  | FinErr e => Err e
+  | FinPanic => Panic
+  end.
